@@ -34,7 +34,7 @@ SHARDS = {"quick": 16, "thorough": 16}
 TIMEOUT = {"quick": 900, "thorough": 7200}
 MIN_CASES = {"quick": 1200, "thorough": 15000}
 REQUIRED_COUNTERS = ["honest_accepted", "accessory_accepted_m3", "accessory_accepted_m5", "adversarial_rejected", "m4_proof_flips", "m6_cipher_flips", "directed_leading_zero_K", "directed_leading_zero_S", "directed_leading_zero_A", "directed_leading_zero_M2",
-                     "srp_public_values_observed", "ble_setups_completed", "ble_setups_restarted", "ip_setups_completed", "coap_setups_completed", "transport_setups_wrong_code_refused"]
+                     "srp_public_values_observed", "same_salt_histories", "ble_setups_completed", "ble_setups_restarted", "ip_setups_completed", "coap_setups_completed", "transport_setups_wrong_code_refused"]
 
 
 def make_acc(rng, code=None, pairing_id=None):
@@ -121,6 +121,34 @@ def fresh_srp_key(ctx, acc, replay) -> None:
         ctx.violation("controller-srp-key-reused", f"the controller's SRP public value of this exchange was already used by exchange #{SEEN_SRP_A[A]}", replay)
     else:
         SEEN_SRP_A[A] = len(SEEN_SRP_A)
+
+
+def same_salt_history(ctx, rng, idx) -> None:
+    """Two accessories / two attempts that share ONE salt (a fixed-verifier accessory, the all-zero salt some devices use) with
+    DIFFERENT setup codes, in one process: each exchange stands on its own code."""
+    salt = rng.choice([bytes(16), rng.randbytes(16)])
+    pid = b"5A:17:00:00:00:01"
+    c1 = f"{rng.randrange(1000):03d}-{rng.randrange(100):02d}-{rng.randrange(1000):03d}"
+    c2 = f"{(int(c1[:3]) + 1) % 1000:03d}{c1[3:]}"
+    mode = rng.choice(["ip", "ble"])
+    replay = {"kind": "same-salt", "idx": idx}
+    steps = [("code 1, honest", c1, c1, True), ("same salt, code 2, honest", c2, c2, True), ("same salt: accessory knows code 1, controller is given code 2", c1, c2, False),
+             ("same salt, code 1 again, honest", c1, c1, True)]
+    for label, acc_code, ctl_code, want_ok in steps:
+        acc = refps.SetupAccessory(acc_code, pid, rng.randbytes(32), salt, rng.getrandbits(256) | 1)
+        ctx.case("same-salt", idx, label, sample={"kind": "same salt, different codes", "step": label, "salt_all_zero": salt == bytes(16)}, kind="same-salt")
+        out = drv.run_pair_setup(acc, ctl_code, "ctl-" + str(idx), mode, False)
+        ok = out.exc is None and isinstance(out.value, dict)
+        if want_ok and not (ok and acc.m5_verdict == "ok"):
+            ctx.violation("honest-exchange-fails-after-another-code-on-the-same-salt", f"{label}: {out.summary()} {out.exc!r} (accessory: m3_ok={acc.m3_ok})", replay)
+            return
+        if not want_ok and ok:
+            ctx.violation("returns-data-for-accessory-that-knows-another-code", f"{label}: pairing data returned", replay)
+            return
+        if not want_ok and acc.m3_ok:
+            ctx.violation("wrong-code-proof-accepted-by-accessory", f"{label}: the accessory accepted the controller's M3", replay)
+            return
+    ctx.count("same_salt_histories")
 
 
 def _check_honest(ctx, rng, idx, code, acc, directed) -> None:
@@ -400,6 +428,9 @@ def run(ctx) -> None:
     for j, (name, arg, k) in enumerate(adversarial_plan(ctx)):
         if ctx.mine(j):
             check_adversarial(ctx, name, arg, k, j)
+    for k in range(ctx.pick(4, 60)):
+        if ctx.mine(k):
+            same_salt_history(ctx, ctx.grng("C03.same-salt", k), k)
     # the transports' own pair-setup drivers, end to end (BLE with link drops / a wrong code first, IP, CoAP)
     from vf import setup_transports, vloop
 
@@ -407,6 +438,9 @@ def run(ctx) -> None:
 
 
 def replay(ctx, d) -> None:
+    if d["kind"] == "same-salt":
+        same_salt_history(ctx, ctx.grng("C03.same-salt", d["idx"]), d["idx"])
+        return
     if d["kind"].endswith("-setup"):
         from vf import setup_transports, vloop
 
